@@ -114,6 +114,32 @@ func init() {
 			}
 			return false
 		},
+		"internal/abi.NoEscape": func(fr *frame, a []value) value { return a[0] },
+		"(*strings.Builder).String": func(fr *frame, a []value) value {
+			// struct{ addr *Builder; buf []byte }
+			b := (*a[0].(*value)).(structure)
+			buf, _ := b[1].([]value)
+			return normStr(symstr{append([]value{}, buf...)})
+		},
+		"fmt.Fprintf": func(fr *frame, a []value) value {
+			in := fr.in
+			str := in.sprintf(a[1], a[2].([]value))
+			w := a[0].(iface)
+			if w.t == nil {
+				panic("fmt.Fprintf: nil writer")
+			}
+			if _, isHole := w.v.(hole); isHole {
+				return tuple{0, iface{}}
+			}
+			wr := in.findMethod(w.t, "Write")
+			if wr == nil {
+				unsupported("fmt.Fprintf: writer %v has no Write method", w.t)
+			}
+			data := in.conv(types.NewSlice(types.Typ[types.Uint8]), types.Typ[types.String], str)
+			in.call(fr, fr.callpos, wr, []value{w.v, data})
+			return tuple{len(symstrOf(str).b), iface{}}
+		},
+		"reflect.TypeOf": func(fr *frame, a []value) value { return iface{t: holeType, v: hole{}} }, // only used for metric labels
 		"os.Hostname": func(fr *frame, a []value) value { return tuple{"verif-host", iface{}} },
 		"os.Getenv":   func(fr *frame, a []value) value { return "" },
 		"time.Sleep":         func(fr *frame, a []value) value { return nil },
